@@ -325,6 +325,42 @@ theorem prefix_fails (a : A α) (ht : TailFree a) (q s : Bytes) (v : α) (hs : s
     rw [P.prefix_fails (toP a) q s v hs h1] at h2
     simp at h2
 
+/-- no guard either: the program never looks at how much input remains -/
+inductive NeedFree : A α → Prop
+  | pure (a : α) : NeedFree (.pure a)
+  | fail : NeedFree .fail
+  | read (n : Nat) (k : Bytes → A α) (h : ∀ bs, NeedFree (k bs)) : NeedFree (.read n k)
+  | alloc (u : Nat) (rest : A α) (h : NeedFree rest) : NeedFree (.alloc u rest)
+
+/-- a program without guards and tails is its underlying `P` program -/
+theorem run_eq_toP (a : A α) (h : NeedFree a) (bs : Bytes) : run a bs = P.run (toP a) bs := by
+  induction h generalizing bs with
+  | pure v => rfl
+  | fail => rfl
+  | read n k _ ih =>
+    simp only [run, toP, P.run]
+    split
+    · exact ih _ _
+    · rfl
+  | alloc u rest _ ih => exact ih bs
+
+theorem needFree_ofP (p : P α) : NeedFree (ofP p) := by
+  induction p with
+  | pure a => exact .pure a
+  | fail => exact .fail
+  | read n k ih => exact .read n _ ih
+
+theorem needFree_bind (a : A α) (f : α → A β) (ha : NeedFree a) (hf : ∀ x, NeedFree (f x)) :
+    NeedFree (bind a f) := by
+  induction ha with
+  | pure x => exact hf x
+  | fail => exact .fail
+  | read n k _ ih => exact .read n _ ih
+  | alloc u rest _ ih => exact .alloc u _ ih
+
+theorem needFree_map (f : α → β) (a : A α) (ha : NeedFree a) : NeedFree (map f a) :=
+  needFree_bind a _ ha (fun x => .pure (f x))
+
 /-- a successful run leaves a suffix of its input -/
 theorem run_length_le (a : A α) (bs : Bytes) (v : α) (r : Bytes) (h : run a bs = some (v, r)) :
     r.length ≤ bs.length := by
